@@ -91,12 +91,7 @@ where
     T2: Term,
 {
     fn eq(&self, other: &IsoTerm<T1>) -> bool {
-        use TermKind::BlankNode;
-        if self.kind() == BlankNode && other.kind() == BlankNode {
-            true
-        } else {
-            Term::eq(&self.0, other.0.borrow_term())
-        }
+        iso_eq(self.0.borrow_term(), other.0.borrow_term())
     }
 }
 
@@ -108,23 +103,45 @@ where
     T2: Term,
 {
     fn partial_cmp(&self, other: &IsoTerm<T1>) -> Option<Ordering> {
-        use TermKind::BlankNode;
-        if self.kind() == BlankNode && other.kind() == BlankNode {
-            Some(Ordering::Equal)
-        } else {
-            Some(Term::cmp(&self.0, other.0.borrow_term()))
-        }
+        Some(iso_cmp(self.0.borrow_term(), other.0.borrow_term()))
     }
 }
 
 impl<T: Term> Ord for IsoTerm<T> {
     fn cmp(&self, other: &Self) -> Ordering {
-        use TermKind::BlankNode;
-        if self.kind() == BlankNode && other.kind() == BlankNode {
-            Ordering::Equal
-        } else {
-            Term::cmp(&self.0, other.0.borrow_term())
+        iso_cmp(self.0.borrow_term(), other.0.borrow_term())
+    }
+}
+
+/// Like [`Term::eq`], except that all blank nodes are considered equal,
+/// including those nested in quoted triples.
+fn iso_eq<T1: Term, T2: Term>(t1: T1, t2: T2) -> bool {
+    use TermKind::{BlankNode, Triple};
+    match (t1.kind(), t2.kind()) {
+        (BlankNode, BlankNode) => true,
+        (Triple, Triple) => {
+            let [s1, p1, o1] = t1.triple().unwrap();
+            let [s2, p2, o2] = t2.triple().unwrap();
+            iso_eq(s1, s2) && iso_eq(p1, p2) && iso_eq(o1, o2)
         }
+        _ => Term::eq(&t1, t2),
+    }
+}
+
+/// Like [`Term::cmp`], except that all blank nodes are considered equal,
+/// including those nested in quoted triples.
+fn iso_cmp<T1: Term, T2: Term>(t1: T1, t2: T2) -> Ordering {
+    use TermKind::{BlankNode, Triple};
+    match (t1.kind(), t2.kind()) {
+        (BlankNode, BlankNode) => Ordering::Equal,
+        (Triple, Triple) => {
+            let [s1, p1, o1] = t1.triple().unwrap();
+            let [s2, p2, o2] = t2.triple().unwrap();
+            iso_cmp(s1, s2)
+                .then_with(|| iso_cmp(p1, p2))
+                .then_with(|| iso_cmp(o1, o2))
+        }
+        _ => Term::cmp(&t1, t2),
     }
 }
 
